@@ -67,8 +67,9 @@ SetMatch(A, C) ==       \* C13
   /\ A.ranking = C.ranking /\ A.valSet = C.valSet /\ SameVals(A, C, LAMBDA x : << x.exists, x.status, x.power >>)
 PunishMatch(A, C) ==    \* C14
   /\ SameVals(A, C, LAMBDA x : << x.status, x.jailedUntil, x.offset, x.missed >>) /\ A.slashed = C.slashed
-UnlockMatch(A, C) ==    \* C15
+UnlockMatch(A, C) ==    \* C15 (incl. "drops below a threshold => leaves the candidate set immediately with zero power")
   /\ A.unlockQ = C.unlockQ /\ A.q.unlocks = C.q.unlocks /\ A.nonce = C.nonce
+  /\ SameVals(A, C, LAMBDA x : << x.status, x.power, x.locking >>) /\ A.ranking = C.ranking /\ A.lockIdx = C.lockIdx
 TokensMatch(A, C) == A.tokens = C.tokens /\ A.thr = C.thr /\ A.hasAcc = C.hasAcc
 
 Matches(A, C) ==
